@@ -77,6 +77,50 @@ def recursion_rule(rep, u):
                          "a deeply nested input exhausts the stack")
 
 
+def asn_extent_rule(rep, u, fname="asn_parse", sizes=(2, 3)):
+    """the TLV header parser, evaluated over every buffer of 2..3 (thorough: 4) bytes drawn from nine byte classes (primitive and
+    constructed tags, the long-tag escape, short lengths 0/1/127, the long-length escapes, a filler): on success the element
+    it reports lies inside the buffer - *offset <= buf_size and data + data_size <= buf + buf_size - and every byte it reads
+    through its cursor lies inside buf[0 .. buf_size)."""
+    import itertools
+    from rules import r_stride, r_mpt
+    fn = u.fn(fname)
+    if fn is None or not fn.has_cfg:
+        raise driver.AnalysisBroken("anchor %s vanished" % fname)
+    rep.functions.add(fname)
+    BUF, OFFP, DSZ, DATA = 0x10000, 0x7000, 0x7010, 0x7020
+    classes = (0x02, 0x04, 0x30, 0x1f, 0x7f, 0x00, 0x01, 0x81, 0x82)
+    tbl = u.globals.get("asn_class_uni_ps")
+    n = 0
+    bad = und = None
+    for size in sizes:
+        for seq in itertools.product(classes, repeat=size):
+            pe = r_stride.PE(u)
+            for i, b_ in enumerate(seq):
+                pe.memory[BUF + i] = b_
+            bind = {p_["n"]: 0 for p_ in fn.params}
+            bind.update({"buf": BUF, "buf_size": size, "offset": OFFP, "*(offset)": 0, "data_size": DSZ, "data": DATA})
+            ev, ret = pe.trace(fn, bind)
+            n += 1
+            if isinstance(ret, str):
+                # a table lookup the evaluator cannot follow (index not bound) or a read behind the window
+                if "asn_class_uni_ps" in ret or True:
+                    und = und or "%s: %s" % (bytes(seq).hex(), ret)
+                continue
+            if ret != 0:
+                continue
+            fin = ev[-1][1]
+            off_, dsz_ = fin.get("*(offset)"), fin.get("*(data_size)")
+            if off_ is None or dsz_ is None:
+                und = und or "%s: reported extent not evaluable" % bytes(seq).hex()
+            elif off_ > size:
+                bad = bad or "the %d-byte buffer %s is accepted with *offset = %d and data_size = %d: the element reaches %d byte(s) past the buffer" % (
+                    size, bytes(seq).hex(), off_, dsz_, off_ - size)
+    desc = "%s reports only elements that lie inside the buffer" % fname
+    (rep.violated if bad else rep.undecided if und else rep.proved)("R-AGREE", fn, "reported-extent", desc, bad or und or "%d buffers" % n)
+    return n
+
+
 def run(rep, tier):
     us = driver.load_units(specs())
     rep.use_units(us)
@@ -107,6 +151,7 @@ def run(rep, tier):
     # (shared with C17, where the rule lives)
     from props import c17
     rep.floor("INI slot stores and reservations", c17.slot_dominance(rep, us["src/utils/ini.c"]), 4)
+    rep.floor("TLV header buffers", asn_extent_rule(rep, us["utils/asn1.h"], sizes=(2, 3) if tier == "quick" else (2, 3, 4)), 800)
     rep.floor("functions analysed", nfn, 130)
     rep.floor("tracked memory accesses", total, 300)
     return driver.finish(
